@@ -71,7 +71,7 @@ func unjoined(kind drv.Kind, n, levels, bound int, shared string) *h.Scn {
 	// end event); shared == "direct": the same without tasks on the branches, so that the tokens
 	// reach it at almost the same moment
 	var common *drv.Node
-	if shared != "" {
+	if shared == "tasks" || shared == "direct" {
 		common = c.Add(drv.End, "bend")
 	}
 	for i := 1; i <= n; i++ {
@@ -81,6 +81,12 @@ func unjoined(kind drv.Kind, n, levels, bound int, shared string) *h.Scn {
 		}
 		if shared == "direct" {
 			c.Link(f, common, cond)
+			continue
+		}
+		if shared == "mixed" && i == 1 {
+			// the first branch goes straight to its own end event (the forking flow ends at
+			// once), the others wait at a task
+			c.Link(f, c.Add(drv.End, "bend1"), cond)
 			continue
 		}
 		t := c.Add(drv.Task, fmt.Sprintf("b%d", i))
@@ -170,7 +176,7 @@ func init() {
 					if n == 2 && (levels == 1 || thorough) {
 						out = append(out, unjoined(kind, n, levels, 1, ""))
 					}
-					for _, shared := range []string{"tasks", "direct"} {
+					for _, shared := range []string{"tasks", "direct", "mixed"} {
 						out = append(out, unjoined(kind, n, levels, 0, shared))
 						if n == 2 && levels == 1 {
 							out = append(out, unjoined(kind, n, levels, 1, shared))
